@@ -29,6 +29,11 @@ type Behaviour struct {
 const (
 	Realised     = "realised"
 	Unrealisable = "unrealisable" // model finer than code here; skipped, never a verdict
+	// Diverged: the real code left the model's schedule part-way (a process was not at the gate the
+	// model names); the driver let everything finish free-running and recorded the observable trace.
+	// It is a real execution, so the property-level judge still judges it; it counts as "not realised"
+	// for the model/code-mismatch guard.
+	Diverged = "diverged"
 	Inconclusive = "inconclusive" // timing margin exceeded etc.; skipped, never a verdict
 	DriverError  = "driver_error" // harness bug / API drift => exit 2
 )
@@ -133,6 +138,7 @@ type runState struct {
 	viols    []Violation
 	notes    []string
 	srcStats []string
+	mismatch string
 	selfTest string
 }
 
@@ -314,15 +320,15 @@ func (rs *runState) run(replay string, keep bool) int {
 	counts := map[string]int{}
 	for _, t := range rs.traces {
 		counts[t.Status]++
-		if t.Status == Realised {
+		if t.Status == Realised || (t.Status == Diverged && len(t.Events) > 0) {
 			realised = append(realised, t)
 		}
 		if t.Status == DriverError {
 			rs.notes = append(rs.notes, fmt.Sprintf("driver error on behaviour %d: %s", t.Beh.ID, t.Note))
 		}
 	}
-	fmt.Printf("[drive] behaviours=%d realised=%d unrealisable=%d inconclusive=%d driver_error=%d\n",
-		len(behs), counts[Realised], counts[Unrealisable], counts[Inconclusive], counts[DriverError])
+	fmt.Printf("[drive] behaviours=%d realised=%d diverged=%d unrealisable=%d inconclusive=%d driver_error=%d\n",
+		len(behs), counts[Realised], counts[Diverged], counts[Unrealisable], counts[Inconclusive], counts[DriverError])
 	{
 		type sc struct {
 			n    map[string]int
@@ -348,7 +354,7 @@ func (rs *runState) run(replay string, keep bool) int {
 		sort.Strings(srcs)
 		for _, s := range srcs {
 			c := by[s]
-			line := fmt.Sprintf("[drive]   %-28s realised=%d unrealisable=%d inconclusive=%d", s, c.n[Realised], c.n[Unrealisable], c.n[Inconclusive])
+			line := fmt.Sprintf("[drive]   %-28s realised=%d diverged=%d unrealisable=%d inconclusive=%d", s, c.n[Realised], c.n[Diverged], c.n[Unrealisable], c.n[Inconclusive])
 			if c.note != "" {
 				line += "  e.g. " + c.note
 			}
@@ -362,13 +368,13 @@ func (rs *runState) run(replay string, keep bool) int {
 		if floor > 0 && replay == "" {
 			for _, s := range srcs {
 				c := by[s]
-				tot := c.n[Realised] + c.n[Unrealisable]
+				tot := c.n[Realised] + c.n[Unrealisable] + c.n[Diverged]
 				if strings.HasPrefix(s, "legacy") || s == "extra" || tot < 20 {
 					continue
 				}
-				if share := float64(c.n[Realised]) / float64(tot); share < floor {
-					rs.writeEvidence(2)
-					fail2("the model no longer matches the code: only %.0f%% of the behaviours of source %q could be realised (floor %.0f%%); e.g. %s", share*100, s, floor*100, c.note)
+				if share := float64(c.n[Realised]) / float64(tot); share < floor && rs.mismatch == "" {
+					// applied after judging: a real-code violation found on the traces we do have takes precedence
+					rs.mismatch = fmt.Sprintf("the model no longer matches the code: only %.0f%% of the behaviours of source %q could be realised (floor %.0f%%); e.g. %s", share*100, s, floor*100, c.note)
 				}
 			}
 		}
@@ -484,6 +490,10 @@ func (rs *runState) run(replay string, keep bool) int {
 		}
 		fmt.Printf("VIOLATION property=%s replay=%s\n", p.ID, path)
 		return 1
+	}
+	if rs.mismatch != "" {
+		rs.writeEvidence(2)
+		fail2("%s", rs.mismatch)
 	}
 	rs.writeEvidence(0)
 	fmt.Printf("OK property=%s tier=%s traces_validated=%d known_findings=%d wall=%.1fs\n", p.ID, env.Tier, len(realised), len(known), time.Since(rs.start).Seconds())
